@@ -2,7 +2,8 @@
    Statements only; every proof is `exact <lemma>` (or `reflexivity` on GENERATED facts / concrete witnesses).
    sqlite_config (FIELD_MAP, SQLITE_FIELD_MAP, RESERVED_FIELDS, default batch size), writer_code (the bodies of
    SqliteWriter.__init__/write/tx_cycle/flush/close as statement lists) and name_chars are the GENERATED facts
-   of gen/Gen_sqlite.v.  A history is a list of events (EWrite record | EFlush) over arbitrary descriptors;
+   of gen/Gen_sqlite.v.  A history is a list of events (EWrite record | EFlush | EReopen = close and open a new writer on the same
+   file) over arbitrary descriptors;
    [final_db b h] is the database file after  with SqliteWriter(path, batch_size=b): <h>. *)
 From Coq Require Import List Bool String Ascii ZArith NArith.
 Import ListNotations.
@@ -21,22 +22,28 @@ Theorem C18_generated_code_refines :
   (forall w r, code_write_fn C writer_code w r = write C w r) /\
   (forall w, code_tx C writer_code w = tx_cycle C w) /\
   (forall w, code_flush_fn C writer_code w = flush C w) /\
-  (forall w, code_close_fn C writer_code w = close C w).
+  (forall w, code_close_fn C writer_code w = close C w) /\
+  (forall w, code_reopen C writer_code w = reopen C w).
 Proof. exact (code_refines C writer_code C18_generated_code). Qed.
 
 Theorem C18_generated_value_maps : value_side_ok C = true.
 Proof. reflexivity. Qed.
 
+(* SqliteReader enumerates every table of the file (no further predicate in the sqlite_master query) and reads each *)
+Theorem C18_generated_reader_lists_all_tables :
+  reader_table_query = all_tables_query /\ reader_iterates_all_tables = true.
+Proof. split; reflexivity. Qed.
+
 (* ---- every write succeeds (no SQL error) on well-formed, case-distinct histories with 64-bit integers ---- *)
 Theorem C18_every_write_succeeds : forall b h, b <> 0%N ->
-  wf_history C h -> case_distinct C h -> ints_in_range h ->
+  wf_history C h -> case_distinct C h -> ints_in_range h -> no_reserved_names h ->
   exists w, run C b h = Ok w /\ final_db C b h = Ok (spec_tables C h).
 Proof. exact (every_write_succeeds C). Qed.
 
 (* ---- one table per record type name (in order of first use), one column per field: the columns of a table
    are the fields of all descriptors of that name, first declaration first, added as descriptors gain fields ---- *)
 Theorem C18_tables_and_columns : forall b h, b <> 0%N ->
-  wf_history C h -> case_distinct C h -> ints_in_range h ->
+  wf_history C h -> case_distinct C h -> ints_in_range h -> no_reserved_names h ->
   exists ts, final_db C b h = Ok ts /\
     map t_name ts = dedup_by self (type_names h) /\
     forall t, In t ts -> t_cols t = spec_cols C (t_name t) h.
@@ -44,10 +51,18 @@ Proof. exact (tables_and_columns C). Qed.
 
 (* ---- one row per record, in write order; each value under its own field's column, NULL elsewhere ---- *)
 Theorem C18_rows_in_order : forall b h, b <> 0%N ->
-  wf_history C h -> case_distinct C h -> ints_in_range h ->
+  wf_history C h -> case_distinct C h -> ints_in_range h -> no_reserved_names h ->
   exists ts, final_db C b h = Ok ts /\
     forall t, In t ts -> select_all t = map (spec_row C (t_cols t)) (records_named (t_name t) h).
 Proof. exact (rows_in_order C). Qed.
+
+(* ---- reading back: every table is read (as the type of its name) with as many records as were written ---- *)
+Theorem C18_read_back_counts : forall b h, b <> 0%N ->
+  wf_history C h -> case_distinct C h -> ints_in_range h -> no_reserved_names h ->
+  exists ts, final_db C b h = Ok ts /\
+    map fst (read_db C ts) = dedup_by self (type_names h) /\
+    forall t, In t ts -> List.length (read_table C t) = List.length (records_named (t_name t) h).
+Proof. exact (read_back_counts C). Qed.
 
 (* ---- the stored content does not depend on the batch size (for EVERY history, failing ones included) ---- *)
 Theorem C18_batch_independent : forall b1 b2 h, b1 <> 0%N -> b2 <> 0%N -> final_db C b1 h = final_db C b2 h.
@@ -55,7 +70,7 @@ Proof. exact (batch_independent C). Qed.
 
 (* ---- at every point of every history another connection sees exactly the rows of the first
    [last_commit b h] events -- a prefix that ends at the LAST commit point (nothing yet | explicit flush |
-   every b-th record | just before the first record of a new descriptor); never part of a batch ---- *)
+   end of a writer session | every b-th record of a session | just before the first record of a descriptor new to the session); never part of a batch ---- *)
 Theorem C18_other_connection_sees_commit_points : forall b h w, b <> 0%N -> run C b h = Ok w ->
   let c := last_commit b h in
   c <= List.length h /\
@@ -120,8 +135,21 @@ Proof.
   split; [exact (proj2 (hypsb_sound_wf_ints C h_two_fields eq_refl))|]. reflexivity.
 Qed.
 
+(* a type name that begins with "sqlite_" cannot be written at all (known finding C18-reserved-table-name) *)
+Definition d_reserved : desc := {| d_name := "sqlite_stat"; d_fields := [("string", "a")]%string |}.
+Definition h_reserved : list event :=
+  [EWrite {| r_desc := d_reserved; r_vals := [PText "1"; PNone; PNone; ts0; PInt 1] |}].
+Theorem C18_refuted_reserved_name :
+  wf_history C h_reserved /\ case_distinct C h_reserved /\ ints_in_range h_reserved /\
+  final_db C 1000 h_reserved = Err EReservedName.
+Proof.
+  split; [exact (proj1 (hypsb_sound_wf_ints C h_reserved eq_refl))|].
+  split; [exact (case_distinctb_sound C h_reserved eq_refl)|].
+  split; [exact (proj2 (hypsb_sound_wf_ints C h_reserved eq_refl))|]. reflexivity.
+Qed.
+
 (* ---- non-vacuity: a history with three descriptors (two of one name, the second gaining a field), mixed-case
-   but case-distinct names, boundary integers and an explicit flush meets all hypotheses ---- *)
+   but case-distinct names, boundary integers, an explicit flush and a second writer session meets all hypotheses ---- *)
 Definition d1 : desc := {| d_name := "Net/Conn"; d_fields := [("string", "host"); ("varint", "Port")]%string |}.
 Definition d2 : desc := {| d_name := "Net/Conn"; d_fields := [("string", "host"); ("varint", "Port"); ("bytes", "payload")]%string |}.
 Definition d3 : desc := {| d_name := "fs/file"; d_fields := [("path", "p"); ("float", "ratio"); ("datetime", "mtime")]%string |}.
@@ -129,7 +157,9 @@ Definition h_example : list event :=
   [EWrite {| r_desc := d1; r_vals := [PText "a"; PInt 9223372036854775807; PNone; PNone; ts0; PInt 1] |};
    EWrite {| r_desc := d3; r_vals := [POther "/tmp/x"; PFloat 4609434218613702656; ts0; PNone; PNone; ts0; PInt 1] |};
    EFlush;
+   EReopen;
    EWrite {| r_desc := d2; r_vals := [PText "b"; PInt (-9223372036854775808); PBytes "xyz"; PNone; PNone; ts0; PInt 1] |};
    EWrite {| r_desc := d1; r_vals := [PNone; PInt 0; PNone; PNone; ts0; PInt 1] |}].
-Example C18_hyp_satisfiable : wf_history C h_example /\ case_distinct C h_example /\ ints_in_range h_example.
+Example C18_hyp_satisfiable :
+  wf_history C h_example /\ case_distinct C h_example /\ ints_in_range h_example /\ no_reserved_names h_example.
 Proof. exact (hypsb_sound C h_example eq_refl). Qed.
